@@ -437,6 +437,60 @@ def gen_pair2(rng, relation, focus=None):
     return defs, f_ops, g_ops
 
 
+def gen_bystander(rng):
+    """three families, ordered by *first use*: F (configured root nesting N), a plain user of N (N on its own, or another root H that
+    nests it - `gen_pair2` relations nested-alone / shared-nested), and a bystander family G (root + nested class of its own) that has
+    nothing in common with either.  What is drawn on top of gen_pair2: the order in which the three families are used for the first
+    time (the bystander mostly last: a class whose functions are only generated after the others were configured and exercised reads
+    whatever process-wide state they left behind), and when F's LoadMeta / DumpMeta binds take effect (right after the class
+    statement, or only after the other families have been in use).  Returns the op list."""
+    relation = rng.choice(['nested-alone', 'nested-alone', 'shared-nested'])
+    defs, f_ops, h_ops = gen_pair2(rng, relation, rng.choice([None, None, None, 'class-args', 'inherited-meta']) if relation == 'shared-nested' else None)
+    f_name = f_ops[0]['cls']
+    n2, g = model.fresh('N'), model.fresh('G')
+    g_kind = rng.choice(['plain', 'plain', 'json', 'json'] + list(KINDS))
+    g_meta = pick_meta2(rng, v1=rng.random() < 0.2) if rng.random() < 0.25 else None
+    g_style = rng.choice((['inner'] if KINDS[g_kind][1] else []) + ['bind-load', 'bind-dump', 'bind-both']) if g_meta else None
+    g_shape = rng.choice(['single', 'list'])
+    n2_defs, _ = cls2(rng, n2, rng.choice(['plain', 'json']))
+    g_defs, _ = cls2(rng, g, g_kind, n2, g_shape, g_meta, g_style)
+    g_all = n2_defs + g_defs
+    g_ops = _ops2(rng, g, g_kind, n2, g_shape, [g, n2], n_docs=4) + _ops2(rng, n2, 'plain', None, None, [n2], n_docs=2)
+    # F's binds: in place, or held back until the first phase is over
+    late = [op for op in defs if op['op'] == 'bind' and op['cls'] == f_name] if rng.random() < 0.4 else []
+    defs = [op for op in defs if not any(op is x for x in late)]
+    defs = g_all + defs if rng.random() < 0.5 else defs + g_all
+    pools = {'F': f_ops, 'H': h_ops, 'G': g_ops}
+    first = rng.choice([['H', 'F', 'G']] * 5 + [['F', 'H', 'G']] * 2 + [['H', 'G', 'F'], ['G', 'H', 'F'], ['F', 'G', 'H'], ['G', 'F', 'H']])
+    seq = []
+    for k, fam in enumerate(first):
+        if fam == 'F' and late:
+            seq += late                      # (a bind always comes before the first use of the class it configures)
+            late = []
+        loads = [op for op in pools[fam] if op['op'] == 'load']
+        phase = [copy.deepcopy(rng.choice(pools[fam])) for _ in range(rng.randint(1, 3))]
+        if rng.random() < 0.7 and not any(op['op'] == 'load' for op in phase):
+            phase.append(copy.deepcopy(rng.choice(loads)))      # most leaks are on the load side: a phase mostly has a load
+        seq += phase
+    for _ in range(rng.randint(0, 3)):
+        seq.append(copy.deepcopy(rng.choice(pools[rng.choice('FHG')])))
+    return defs + seq
+
+
+def bystander_stream(ctx, budget, n, base_index=200000):
+    """C07 oracle over gen_bystander histories (its own stream of the seed: the streams before it are what they were)"""
+    import random
+    rng = random.Random(f'{ctx.prop_id}:{ctx.seed}:bystander')
+    for j in range(n):
+        i = base_index + j
+        if ctx.done(i):
+            break
+        ops = gen_bystander(rng)
+        if not ctx.begin_case(i):
+            continue
+        check_history(budget, 'isolation-wide:bystander', i, ops, attribute=attribute_c07)
+
+
 def lite_meta(m):
     if m is None:
         return None
@@ -518,7 +572,8 @@ def run(ctx: C.Ctx):
                 'does not, either definition order; a nested class with a Meta of its own (inner or bound: skip_defaults, strict unknown keys, tag_key, '
                 'transforms) that is a member of a Union field of an auto-tagging root and is then used on its own / below G - tag keys are '
                 'kept out of the G-side records; a nested JSONWizard class whose inner Meta derives from another class\'s inner Meta below a '
-                'recursive root, G unrelated) in every '
+                'recursive root, G unrelated; three families ordered by first use: F, a plain user of N (N alone / another root) and an unrelated '
+                'bystander family whose first use mostly comes last, F\'s LoadMeta / DumpMeta bound at once or after the others were used) in every '
                 'operation order (G before F, after F, interleaved); each history runs in a forked pristine child; every G operation is re-run '
                 'with only G\'s definitions in another pristine child (C07: behaviour of G with F == behaviour of G alone); dump outcomes are '
                 'reduced to (class, key style, timestamps?) fingerprints and compared with the Lean cache state machine. '
@@ -570,6 +625,7 @@ def run(ctx: C.Ctx):
                 reqs.append({'op': 'caches', 'defs': mdefs, 'ops': mops})
                 pend.append(({'history': ops}, full, watch, names))
     caches_stream(ctx, ctx.quick(60, 800))
+    bystander_stream(ctx, budget, ctx.quick(70, 800))
     if ctx.model_available and reqs:
         outs = ctx.driver.run(reqs)
         for (case, full, watch, names), o in zip(pend, outs):
